@@ -17,6 +17,7 @@ import (
 	"verif/checker/peg"
 	"verif/checker/rules"
 
+	"golang.org/x/tools/go/cfg"
 	"golang.org/x/tools/go/ssa"
 )
 
@@ -27,7 +28,7 @@ func c03(c *core.Check) {
 		"(2) SHAPE: for every rule the regular over-approximation of its nodes' child-token sequences is built from the tree-construction semantics read off tokens32.AST (empty tokens are dropped, so nullable children are optional; predicates add nothing; captures add a PegText node), and every function of the tree walker in parser.go is abstractly interpreted on go/ssa: a *node32 value is a set of cursors (parent rule, automaton state, current rule) or nil; .up/.next step the automata, comparisons with rule constants and nil refine on branches, phis join, calls are analysed per abstract argument (memoised, fixpoint over recursion), the error result of a callee is correlated with its node result. Obligation: no field access through a *node32 whose cursor set contains nil. " +
 		"(3) every `for …; n != nil; …` loop over nodes advances by .next in its post statement (the child list is finite, so the walk terminates). " +
 		"(4) the four implementations of implicit field ids (parseStruct, parseUnion, parseException inline and addField for arguments/throws) are alpha-equivalent (compared with each other) and have the shape `previous+1, first = 1`; the implicit enum value is `0 if first else previous+1`. " +
-		"NOT decided: faithfulness of the extracted text, layout independence, the index arithmetic inside pegText beyond the offset-0 fact, the 64 KiB time bound (only termination)."
+		"(5) where captures nest (DoubleConstant contains the IntConstant of its exponent) the text extractor takes the outer capture whole (go/cfg of pegText). NOT decided: faithfulness of the extracted text otherwise, layout independence, the index arithmetic inside pegText beyond the offset-0 fact, the 64 KiB time bound (only termination)."
 	c.RuleText = "one obligation per grammar fact, per dereference site of the walker (grouped per function), per node loop, per sibling pair"
 	c.Assume = []string{"the generated recogniser implements the grammar in its own rule comments and restores the token list after predicates and failed alternatives (pointlander/peg semantics; the generator is not installed)",
 		"go/ssa faithfully represents parser.go"}
@@ -73,6 +74,7 @@ func c03(c *core.Check) {
 	cs := g.CapturesAtStart("Document")
 	c.Decide(len(cs) == 0, "capture-not-at-offset-0", "grammar/captures", "parser/thrift.peg.go", "every capture is preceded by at least one consumed character on every derivation from Document (pegText's buffer[begin-1] is in range)",
 		fmt.Sprintf("captures in %v can begin at input offset 0: pegText reads buffer[-1] and panics", cs))
+	c03nested(c, g)
 	// ---- SHAPE
 	c03shape(c, g)
 	// ---- loops advance
@@ -393,4 +395,100 @@ func ssautilAllFunctions(prog *core.Program, pkg *ssa.Package) map[*ssa.Function
 		}
 	}
 	return out
+}
+
+// c03nested: when the grammar nests captures (a <…> whose body produces another <…>), the text extractor must take a
+// capture node as a whole; if it descends into a PegText node first, it returns the inner text (`1e5` was read as `5`).
+// Decided on go/cfg of pegText: the recursive descent `p.pegText(X.up)` is only reachable through the false edge of
+// `X.pegRule == rulePegText` (or the true edge of `!=`).
+func c03nested(c *core.Check, g *peg.Grammar) {
+	nested := g.NestedCaptures()
+	key := "parser.(parser).pegText/descent"
+	if len(nested) == 0 {
+		c.OKTrivial("capture-taken-whole", key, "parser/thrift.peg.go", "no capture of the grammar contains another capture")
+		return
+	}
+	fd := c.Prog.FuncDecl("parser", "parser.pegText")
+	if fd == nil {
+		c.Unknown("anchor", "parser.(parser).pegText", "", "missing")
+		return
+	}
+	info := c.Prog.Pkg("parser").TypesInfo
+	self := info.Defs[fd.Name]
+	g2 := rules.CFG(info, fd.Body, nil)
+	isDescent := func(n ast.Node) (string, bool) {
+		found := ""
+		rules.Inspect(n, false, func(x ast.Node) bool {
+			call, ok := x.(*ast.CallExpr)
+			if !ok || len(call.Args) != 1 {
+				return true
+			}
+			if fn := rules.Callee(info, call); fn == nil || types.Object(fn) != self {
+				return true
+			}
+			if se, ok := call.Args[0].(*ast.SelectorExpr); ok && se.Sel.Name == "up" {
+				found = rules.ExprString(se.X)
+			}
+			return true
+		})
+		return found, found != ""
+	}
+	type st struct {
+		b   int32
+		est bool
+	}
+	seen := map[st]bool{}
+	bad := ""
+	sites := 0
+	var visit func(b *cfg.Block, est bool)
+	visit = func(b *cfg.Block, est bool) {
+		if seen[st{b.Index, est}] {
+			return
+		}
+		seen[st{b.Index, est}] = true
+		for i, nd := range b.Nodes {
+			// the branch condition itself is the last node; a descent inside the condition is evaluated before the branch
+			if v, ok := isDescent(nd); ok {
+				sites++
+				if !est {
+					bad = fmt.Sprintf("pegText(%s.up) at %s is reached for nodes that may be captures", v, c.Prog.Rel(nd.Pos()))
+				}
+			}
+			if as, ok := nd.(*ast.AssignStmt); ok && i >= 0 {
+				for _, l := range as.Lhs {
+					if id, ok := l.(*ast.Ident); ok && id.Name == "n" {
+						est = false
+					}
+				}
+			}
+		}
+		if len(b.Succs) == 2 && len(b.Nodes) > 0 {
+			if cond, ok := b.Nodes[len(b.Nodes)-1].(ast.Expr); ok {
+				t := rules.ExprString(cond)
+				switch {
+				case strings.HasSuffix(t, ".pegRule != rulePegText"):
+					visit(b.Succs[0], true)
+					visit(b.Succs[1], false)
+					return
+				case strings.HasSuffix(t, ".pegRule == rulePegText"):
+					visit(b.Succs[0], false)
+					visit(b.Succs[1], true)
+					return
+				}
+			}
+		}
+		for _, s := range b.Succs {
+			visit(s, est)
+		}
+	}
+	if len(g2.Blocks) > 0 {
+		visit(g2.Blocks[0], false)
+	}
+	if sites == 0 {
+		c.Unknown("capture-taken-whole", key, c.Prog.Rel(fd.Pos()), "pegText has no recursive descent; the extraction cannot be related to the tree shape")
+		return
+	}
+	c.Decide(bad == "", "capture-taken-whole", key, c.Prog.Rel(fd.Pos()),
+		fmt.Sprintf("captures nest in %v; pegText descends only into nodes that are not captures, so a capture's text is taken whole", nested),
+		fmt.Sprintf("captures nest in %v but %s: the inner capture's text is returned instead of the whole (an exponent double `1e5` is read as `5`)", nested, bad))
 }
